@@ -39,7 +39,8 @@ let string_of_nlist (l : n list) : string =
 let () =
   let file = Sys.argv.(1) in
   let fout = open_out Sys.argv.(2) in
-  let maxrec = if Array.length Sys.argv > 3 then int_of_string Sys.argv.(3) else 20 in
+  let dump = Array.length Sys.argv > 3 && Sys.argv.(3) = "dump" in
+  let maxrec = if Array.length Sys.argv > 3 && not dump then int_of_string Sys.argv.(3) else 20 in
   let ic = open_in file in
   let total = ref 0 and corr_fail = ref 0 and oracle_fail = ref 0 and crash = ref 0
   and bad = ref 0 and recorded = ref 0 in
@@ -56,6 +57,11 @@ let () =
                incr recorded;
                Printf.fprintf fout "CRASH\nCASE %s\n" line
              end
+         | [hd; inp; _] when dump ->
+             (* dump mode: one line per case with the extracted model's prediction *)
+             (match ints_of_section hd with
+              | _ :: fam :: _ -> Printf.fprintf fout "%s\n" (string_of_nlist (model fam (ints_of_section inp)))
+              | _ -> incr bad)
          | [hd; inp; obs] ->
              (match ints_of_section hd with
               | prop :: fam :: _ ->
